@@ -55,6 +55,7 @@ impl VM {
             native_modules: HashMap::new(),
             native_registry: HashMap::new(),
             current_global_mapping_id: 0,
+            current_global_layout: None,
             program_args,
             script_path: None,
             repl_module_aliases: HashSet::new(),
